@@ -9,7 +9,10 @@ FUNCS = cm.UTILS + cm.SCANNER + cm.BUFFER + cm.PARSER + cm.TEX2TXT + \
 
 
 def SELECT(name):
-    return cm.is_safety(name) and not cm.documented_fatal(name)
+    # the run-time-error obligations follow from the object invariants
+    # (MacInv argument references, non-empty arguments, BufInv, ...): the
+    # obligations that establish those invariants are part of the argument
+    return not cm.documented_fatal(name)
 
 
 TRUSTED = cm.TRUSTED_CORE
@@ -19,7 +22,7 @@ ASSUMPTIONS = cm.ASSUME_CORE + [
     'the default equation environment) are the documented fatal exit and '
     'are excluded by the property itself',
 ]
-LEVEL_TEXT = ('Deductive proof of absence of run-time errors in the verified functions: one obligation per subscript, '
+LEVEL_TEXT = ('Deductive proof of absence of run-time errors in the verified functions (together with the obligations that establish the invariants they rely on): one obligation per subscript, '
     '[-1], pop, None dereference, dictionary look-up, int(), next() without default and tuple unpacking, plus '
     'unreachability of every utils.fatal call other than the documented one, plus the termination variant of the '
     'scanner loop. The obligations follow from the invariants (non-empty argument buffers, non-empty mandatory '
